@@ -18,14 +18,26 @@ Per run:
       spectrum-level clauses are re-evaluated on that object: data and mask bit-identical to before, total == number of usable
       SNPs (mask_corners=False) and unchanged, equal to the sum of the chunk spectra (data, mask, total), repeated evaluation gives
       the same value, the value equals direct counting for both mask_corners settings.  A fail-closed reading of the source of the
-      statistic methods (`stat_source_obligation`) states which of them touch `self` at all."""
+      statistic methods (`stat_source_obligation`) states which of them touch `self` at all;
+  (4) argument types / containers / layouts (c13_types.py, impl/c13_impl_types.py): the data dictionary is an in-memory interface (from_data_dict
+      documents its layout, Misc.dd_from_SLiM_files builds one with integer alleles 0/1 and integer population keys).  Every run, systematic
+      genotype-count tables (1-3 populations, ancestral allele first / second / unknown, under-called, non-biallelic; SLiM-shaped ones written as
+      SLiM output and read back by dd_from_SLiM_files) are handed to count_data_dict / from_data_dict / fragment_data_dict /
+      bootstraps_from_dd_chunks / the statistics in every enumerated spelling (allele coding: letters, lower case, bytes, numpy str, '', '0'/'1',
+      python / numpy ints incl. 0, bools, floats, 0-d arrays; 16 spellings of a missing outgroup; tuple / list / ndarray / strided / negatively
+      strided / Fortran / masked containers of segregating, calls, pop_ids, projections; dict flavours; flag / chunk_size / Nboot types; population
+      key types): result == canonical spelling, predicates on the variant itself, arguments unchanged, canonical spelling == Coq model.
+      `dd_source_obligation` pins the text of count_data_dict / from_data_dict; if it breaks, a targeted search over products of the factors runs
+      before anything is reported without an input."""
 import json, math, os, itertools
 from fractions import Fraction
 import numpy as np
 from harness import lib
 from harness.lib import q, ql, b, natl
+from harness.props import c13_types as TY
 
 TOL = Fraction(1, 10 ** 11)
+JOBS = max(1, min(6, int(os.environ.get('C13_JOBS', '6'))))     # coqc processes in parallel (shared machines: C13_JOBS=3)
 TOL_STAT = Fraction(1, 10 ** 10)
 BASES = 'ACGT'
 
@@ -419,7 +431,7 @@ def run_coq(ctx, cases, byid):
         body.append('Definition results := [%s].' % ';\n  '.join(ids))
         body.append('Eval vm_compute in results.')
         files.append(('C13_corr_%d' % (k // shard), '\n'.join(body) + '\n'))
-    res = lib.run_case_files(files, timeout=900, jobs=6)
+    res = lib.run_case_files(files, timeout=900, jobs=JOBS)
     out = {}
     for n, (rc, so, se, secs) in res.items():
         if rc != 0:
@@ -827,6 +839,239 @@ def stat_source_obligation(ctx):
     ctx.obligation(name, not why, 'translator', '; '.join(why)[:600])
     return None if not why else (name, why)
 
+
+# ------------------------------------------------------------------------------------------------
+# stream 'types': the in-memory data dictionary in every spelling the library accepts (c13_types.py)
+
+REVIEWED_COUNT_DATA_DICT = """
+def count_data_dict(data_dict, pop_ids):
+    count_dict = collections.defaultdict(int)
+    for snp_info in data_dict.values():
+        if len(snp_info['segregating']) != 2:
+            continue
+        allele1,allele2 = snp_info['segregating']
+        if 'outgroup_allele' in snp_info and snp_info['outgroup_allele'] != '-' and snp_info['outgroup_allele'] in snp_info['segregating']:
+            outgroup_allele = snp_info['outgroup_allele']
+            this_snp_polarized = True
+        else:
+            outgroup_allele = allele1
+            this_snp_polarized = False
+        allele1_calls = [snp_info['calls'][pop][0] for pop in pop_ids]
+        allele2_calls = [snp_info['calls'][pop][1] for pop in pop_ids]
+        successful_calls = [a1+a2 for (a1,a2) in zip(allele1_calls, allele2_calls)]
+        if allele1 == outgroup_allele:
+            derived_calls = allele2_calls
+        elif allele2 == outgroup_allele:
+            derived_calls = allele1_calls
+        count_dict[tuple(successful_calls),tuple(derived_calls), this_snp_polarized] += 1
+    return count_dict
+"""
+REVIEWED_FROM_DATA_DICT = """
+def from_data_dict(data_dict, pop_ids, projections, mask_corners=True, polarized=True):
+    import dadi.Misc
+    cd = dadi.Misc.count_data_dict(data_dict, pop_ids)
+    fs = Spectrum._from_count_dict(cd, projections, polarized, pop_ids, mask_corners=mask_corners)
+    return fs
+"""
+
+def _fn_dump(fn):
+    import ast
+    body = list(fn.body)
+    if body and isinstance(body[0], ast.Expr) and isinstance(body[0].value, ast.Constant) and isinstance(body[0].value.value, str):
+        body = body[1:]
+    return ast.dump(fn.args) + ' :: ' + ' ;; '.join(ast.dump(x) for x in body)
+
+def dd_source_obligation(ctx):
+    """fail-closed: Misc.count_data_dict (the polarisation rule snp_row of Model/DataDict.v is a transcription of: outgroup present, != '-',
+    a member of segregating -- tested by == / in, never by truth value) and Spectrum.from_data_dict are, statement by statement, the
+    text that was reviewed against the model"""
+    import ast
+    name = ("source of Misc.count_data_dict / Spectrum.from_data_dict: statement by statement the reviewed text (polarised iff 'outgroup_allele' "
+            "is present, != '-' and in segregating; no test on the truth value of an allele, a count or a container)")
+    why = []
+    try:
+        for path, cls, fn, reviewed in ((('dadi', 'Misc.py'), None, 'count_data_dict', REVIEWED_COUNT_DATA_DICT),
+                                        (('dadi', 'Spectrum_mod.py'), 'Spectrum', 'from_data_dict', REVIEWED_FROM_DATA_DICT)):
+            tree = ast.parse(open(os.path.join(lib.REPO, *path)).read())
+            scope = tree.body if cls is None else [n for n in tree.body if isinstance(n, ast.ClassDef) and n.name == cls][0].body
+            found = [n for n in scope if isinstance(n, ast.FunctionDef) and n.name == fn]
+            if len(found) != 1:
+                why.append('%s defined %d times' % (fn, len(found))); continue
+            want = [n for n in ast.parse(reviewed).body if isinstance(n, ast.FunctionDef)][0]
+            if _fn_dump(found[0]) != _fn_dump(want):
+                got_l = [ast.unparse(x) for x in found[0].body]; want_l = [ast.unparse(x) for x in want.body]
+                diff = [g for g in got_l if g not in want_l and not g.startswith("'")]
+                why.append('%s differs from the reviewed text at: %s' % (fn, ' | '.join(d.replace('\n', ' ')[:160] for d in diff[:2]) or 'signature / statement order'))
+    except Exception as e:
+        why.append('%s: %s' % (type(e).__name__, e))
+    ctx.obligation(name, not why, 'translator', '; '.join(why)[:600])
+    return None if not why else (name, why)
+
+ENTRY_TEXT = {'cd': 'Misc.count_data_dict', 'fs': 'Spectrum.from_data_dict', 'stats': 'the statistics of the spectrum', 'chunks': 'Misc.fragment_data_dict',
+              'chunk_fs': 'the chunk spectra', 'boots': 'Misc.bootstraps_from_dd_chunks', 'unchanged': "the caller's objects"}
+
+def types_canonical_coq(ctx, bases, recs):
+    """the canonical spelling of every base through the Coq model"""
+    header = ('From Coq Require Import ZArith NArith QArith List String.\n'
+              'From Dadi Require Import Base.Num Base.NumQ Model.Fold Model.DataDict Model.Stats Model.DataDictCheck.\n'
+              'Import ListNotations.\nOpen Scope string_scope.\nOpen Scope Q_scope.\n')
+    files = []; names = {}
+    for bi, (base, ref) in enumerate(zip(bases, recs)):
+        if any(TY.is_err(v) for v in ref.values()) or 'cd' not in ref:
+            continue
+        sel = [base['pops'].index(p) for p in base['pop_ids']]
+        dd = []
+        for s in base['snps']:
+            a, bb = s['letters']
+            seg = [a, bb] if s['nseg'] == 2 else [a] if s['nseg'] == 1 else [a, bb, [x for x in 'ACGT' if x not in s['letters']][0]]
+            dd.append({'key': s['key'], 'seg': seg, 'context': '', 'out': '-' if s['anc'] is None else s['letters'][s['anc']], 'out_context': '',
+                       'calls': [(p, s['a1'][i], s['a2'][i]) for i, p in enumerate(base['pops'])]})
+        n = 'dd_%d' % bi
+        body = [header, 'Definition %s : dict snp := %s.' % (n, dd_lit(dd)),
+                'Definition pops_%d := %s.' % (bi, strl(base['pop_ids']))]
+        checks = []
+        def add(label, term):
+            cid = bi * 64 + len(checks)
+            names[cid] = label
+            checks.append('(%d%%Z, %s)' % (cid, term))
+        cd = [(s_, d_, p_, n_) for s_, d_, p_, n_ in ref['cd']]
+        add('count dictionary', 'ok (opt_eqb cd_eqb (count_data_dict %s pops_%d) (Some %s))' % (n, bi, cd_lit(cd)))
+        for nm, projs in (('proj', base['projections']), ('full', base['full'])):
+            for mtag in 'FT':
+                for ptag in ('pol', 'fold'):
+                    r = ref['fs_%s_%s_%s' % (nm, mtag, ptag)]
+                    add('spectrum %s mask_corners=%s %s' % (nm, mtag, ptag),
+                        'spec_close %s (from_data_dict (F:=Q) %s pops_%d %s %s %s) (Some %s)' % (q(TOL), n, bi, natl(projs), b(mtag == 'T'), b(ptag == 'pol'), fs_lit(r)))
+        add('chunk membership', 'ok (opt_eqb (list_eqb (list_eqb String.eqb)) (option_map (map (map fst)) (fragment_data_dict %s %d%%N)) (Some %s))' % (
+            n, base['chunk_size'], '[' + '; '.join(strl(x) for x in ref['chunks']) + ']'))
+        for ptag in ('pol', 'fold'):
+            cf = ref['chunk_fs_' + ptag]; bt = ref['boots_' + ptag]
+            add('chunk spectra ' + ptag,
+                'match fragment_data_dict %s %d%%N with Some frags => match all_some (map (fun f => from_data_dict (F:=Q) f pops_%d %s false %s) frags) with '
+                'Some specs => all_close %s (map (@ls_data Q) specs) [%s] | None => ok false end | None => ok false end' % (
+                    n, base['chunk_size'], bi, natl(base['projections']), b(ptag == 'pol'), q(TOL), '; '.join(ql(f['data']) for f in cf)))
+            add('bootstraps ' + ptag,
+                'match fragment_data_dict %s %d%%N with Some frags => match bootstraps_from_dd_chunks (F:=Q) frags [%s] pops_%d %s false %s with '
+                'Some bs => all_close %s bs [%s] | None => ok false end | None => ok false end' % (
+                    n, base['chunk_size'], '; '.join(natl(p_) for p_ in bt['picks']), bi, natl(base['projections']), b(ptag == 'pol'), q(TOL),
+                    '; '.join(ql(f['data']) for f in bt['fs'])))
+        body.append('Definition results := [%s].' % ';\n  '.join(checks))
+        body.append('Eval vm_compute in results.')
+        files.append(('C13_types_%d' % bi, '\n'.join(body) + '\n'))
+    res = lib.run_case_files(files, timeout=900, jobs=JOBS)
+    bad = []
+    got = {}
+    for nme, (rc, so, se, secs) in res.items():
+        if rc != 0:
+            ctx.obligation('coqc %s' % nme, False, 'correspondence', se[-600:]); bad.append((nme, 'coqc failed'))
+            continue
+        for cid, okk, e in lib.parse_results(so):
+            got[cid] = (okk, e)
+            ctx.err('types: canonical spelling vs model', e, 'tol 1e-11 x scale')
+    for cid, label in names.items():
+        rr = got.get(cid)
+        okk = rr is not None and rr[0]
+        ctx.obligation('types base %d (canonical spelling, in-memory data dictionary) vs Coq model: %s' % (cid // 64, label), okk, 'correspondence',
+                       '' if okk else 'model != impl %r' % (rr,))
+        if not okk:
+            bad.append((cid // 64, label))
+    ctx.checker_cmds.append('coqc -Q coq/theories Dadi build/cases/C13_types_*.v  (%d bases x 14 checks, vm_compute)' % len(files))
+    return bad
+
+def types_stream(ctx, only_base=None, search=False):
+    """returns the number of violations with a failing input that were reported"""
+    rng = __import__('random').Random('C13-types-%s-%d' % ('search' if search else 'stream', ctx.seed))
+    if only_base is not None:
+        bases = [only_base]
+    else:
+        bases = TY.gen_bases(rng, ctx.quick or search)
+        if search:
+            bases = bases[:2] + bases[3:4]
+        for bs in bases:
+            bs['variants'] = TY.variants_for(bs, search=search)
+    res = []
+    for bs in bases:
+        res += lib.run_impl('c13_impl_types.py', [bs], timeout=1800)
+    reported = {}
+    nviol = 0
+    refs = []
+    for bs, r in zip(bases, res):
+        byv = {x['vid']: x for x in r['variants']}
+        ref = byv[bs['variants'][0]['vid']]
+        refs.append(ref)
+        nbad = 0; ncmp = 0
+        for v in bs['variants']:
+            vr = byv[v['vid']]
+            text = TY.spelling_text(v)
+            tagc = 'types%s: ' % (' (search)' if search else '')
+            if 'driver_error' in vr:
+                ctx.obligation('types impl driver base %d variant %s' % (bs['id'], text), False, 'correspondence', vr['driver_error']); continue
+            if 'build' in vr:
+                ctx.count(tagc + ('spelling not applicable (the spelling of a missing outgroup equals an allele code)' if vr['build']['error'].startswith('Collision')
+                                  else 'spelling cannot be built: ' + vr['build']['error'][:60]))
+                if not vr['build']['error'].startswith('Collision'):
+                    ctx.obligation('types base %d: the harness can build spelling %s' % (bs['id'], text), False, 'correspondence', vr['build']['error'])
+                continue
+            rej = TY.rejected_groups(v)
+            skip = set(g for g, (mode, _) in rej.items() if mode == 'differs')
+            for g, (mode, why) in rej.items():
+                ctx.count(tagc + 'not accepted by the unchanged library (%s, counted only): %s -> %s' % (mode, ' '.join(why.split(':')[0:1]), g))
+            # (a) the property predicates on the variant's own outputs
+            probs = {}
+            for g, msgs in TY.predicates(bs, vr, skip).items():
+                probs.setdefault(g, []).extend(msgs)
+            # (b) against the canonical spelling
+            if v['vid'] != bs['variants'][0]['vid']:
+                for g, msgs in TY.compare(bs, ref, vr, order_free=v['spelling'].get('producer') == 'slim').items():
+                    if g in skip:
+                        continue
+                    if g in rej and all(' raised ' in m for m in msgs):
+                        ctx.count(tagc + 'raises as on the unchanged tree: ' + g); continue
+                    probs.setdefault(g, []).extend(msgs)
+            # (c) the caller's objects
+            if 'unchanged' not in skip and vr.get('inputs_unchanged') is not True:
+                probs.setdefault('unchanged', []).append('the data dictionary / pop_ids / projections / chunk_size / Nboot objects handed in were altered (%r)' % (vr.get('inputs_unchanged'),))
+            ncmp += 1
+            ctx.case(signature=('types', bs['id'], text, repr(bs['snps'])), sample=None)
+            ctx.count(tagc + 'variants evaluated (%s)' % v['tag'].split(':')[0])
+            for f, val in v['spelling'].items():
+                ctx.count(tagc + '%s=%s' % (f, val))
+            if v['spelling'] == {}:
+                # an error of the canonical spelling is a failure by itself
+                for k_, x in vr.items():
+                    if TY.is_err(x):
+                        probs.setdefault(TY.group_of(k_) or 'fs', []).append('%s raised %s on the canonical spelling' % (k_, x['error']))
+            if not probs:
+                continue
+            nbad += 1
+            ctx.count(tagc + 'variants that differ from the canonical spelling or fail a predicate')
+            for g, msgs in probs.items():
+                # per entry point: the first two one-factor spellings and one combined spelling that fail are reported (the rest is counted)
+                one = len(v['spelling']) <= 1
+                kk = (g, text) if one else (g, 'combined')
+                if kk in reported or sum(1 for x in reported if x[0] == g) >= (2 if one else 3) or len(reported) >= 12:
+                    continue
+                reported[kk] = True
+                nviol += 1
+                small = dict(bs); small['variants'] = [bs['variants'][0]] + ([v] if v['vid'] != bs['variants'][0]['vid'] else [])
+                ctx.violation('%s with the data dictionary spelled [%s] (%d population(s), projections %r): %s' % (ENTRY_TEXT[g], text, len(bs['pop_ids']), bs['projections'], msgs[0]),
+                              data={'types_base': small, 'variant': v['spelling'], 'group': g, 'messages': msgs[:6],
+                                    'impl': {k_: x for k_, x in vr.items() if TY.group_of(k_) == g or k_ == 'cd'},
+                                    'canonical': {k_: x for k_, x in ref.items() if TY.group_of(k_) == g or k_ == 'cd'}},
+                              key='types:%s:%s' % (g, text if one else 'combined'))
+        ctx.obligation('types base %d (%d population(s)%s): %d spellings x every entry point agree with the canonical spelling, satisfy the predicates, leave the arguments unchanged' % (
+            bs['id'], len(bs['pops']), ', SLiM-shaped' if bs['slim'] else '', ncmp), nbad == 0, 'predicate', '' if not nbad else '%d spellings fail' % nbad)
+    if not search:
+        bad = types_canonical_coq(ctx, bases, refs)
+        for bi, label in bad[:3]:
+            if isinstance(bi, int):
+                bs = bases[bi]
+                small = dict(bs); small['variants'] = [bs['variants'][0]]
+                ctx.violation('real code and Coq model disagree on the %s of an in-memory data dictionary (canonical spelling, base %d)' % (label, bs['id']),
+                              data={'types_base': small, 'impl': refs[bi]}, key='model-mismatch:types:' + label.replace(' ', '-'),
+                              no_input=nviol == 0, broken='correspondence (types): ' + label)
+    return nviol
+
 def run(ctx):
     ctx.rule = ('case = synthetic VCF text (1-3 populations of 2-12 diploids, extra unassigned samples, 4-40 lines; FILTER values; '
                 'lower-case / multi-character / * / multi-allelic REF and ALT; 20 kinds of AA annotation; FORMAT with GT/DP/AD in any order; '
@@ -835,11 +1080,17 @@ def run(ctx):
                 'bootstraps, key suffixes, gzip/zip transport) + per (projection kind requested/full, mask_corners False/True, polarised/folded) a call '
                 'sequence of the statistic methods (a different method first each time, every method repeated in another order, every method alone on a '
                 'fresh object) after each call of which the spectrum-level clauses are re-evaluated on the same object, all from one PRNG; '
-                'distinct = distinct case text+settings; non-trivial = at least one usable SNP')
+                'distinct = distinct case text+settings; non-trivial = at least one usable SNP.  PLUS (types stream) 5 (thorough 20) genotype-count tables '
+                '(1/2/3 populations + two SLiM-shaped) x every enumerated spelling of the in-memory data dictionary and of the other arguments (one factor at a '
+                'time: 32 allele codings, 16 missing-outgroup spellings, 5+19+5+5+5 containers, 6 population-key types, 7 pop_ids / 12 projection containers, 8 flag / 5 '
+                'chunk_size / 4 Nboot types; pairs allele coding x missing spelling and x segregating container; 12 combined; dd_from_SLiM_files) x every entry point')
     ctx.assumptions += ['spectra: float64 vs exact rational evaluation at 1e-11 x largest entry; statistics at 1e-10 x max(1,|value|)',
                         'the genotype strings are diploid with alleles 0/1/. (biallelic records only count 0 and 1)',
                         'Tajima D is compared only for n >= 4 chromosomes and S > 0 (for n = 2, 3 the variance term is 0 up to rounding)',
-                        'bootstraps of an empty data dictionary (no chunk) raise TypeError in reduce(); model: None; not counted as a violation']
+                        'bootstraps of an empty data dictionary (no chunk) raise TypeError in reduce(); model: None; not counted as a violation',
+                        'types stream: which spellings the library accepts was established on the unchanged tree (table c13_types.REJECTED, 9 entries: counts / '
+                        'projections as 0-d arrays, float projections, ndarray pop_ids in the bootstrap, chunk_size as a 0-d array); those are counted, not compared; '
+                        'an allele is identified by python equality (==), as count_data_dict does; the model sees the alleles of the canonical (letter) spelling']
     ctx.trusted += ['numpy.random.choice (subsampling) and random.choices (bootstrap): arbitrary choice; the draws made by the real '
                     'generators are recorded and replayed as the oracle of the model; theorems hold for every oracle',
                     'gzip/zip transport of the input files: identity, runtime only (exercised, not modelled)',
@@ -853,6 +1104,11 @@ def run(ctx):
             c = rp['input']['case']; c['id'] = 0
             c['truth']['samples'] = [tuple(x) for x in c['truth']['samples']]
             cases = [c]
+    only_base = None
+    if ctx.replay:
+        rp = json.load(open(ctx.replay))
+        if rp.get('input') and rp['input'].get('types_base'):
+            only_base = rp['input']['types_base']; cases = []
     for c in cases:
         if c['truth'] and not c['subsample'] and not c['truth']['inconsistent'] and 'snp_text' not in c:
             c['snp_text'] = snp_file_text(c, ctx.rng)
@@ -861,6 +1117,12 @@ def run(ctx):
         if 'stat_seqs' not in c:
             c['stat_seqs'] = stat_seqs_for(c, ctx.rng)
     broken_src = stat_source_obligation(ctx)
+    broken_dd = dd_source_obligation(ctx)
+    ntypes = types_stream(ctx, only_base=only_base)
+    if broken_dd and not ntypes and only_base is None:
+        # the reviewed text of count_data_dict / from_data_dict changed and the regular stream found nothing: targeted search over the
+        # products of the allele codings with every other factor before anything is reported without an input
+        ntypes = types_stream(ctx, search=True)
     batches = [cases[i:i + 100] for i in range(0, len(cases), 100)]
     for batch in batches:
         res = lib.run_impl('c13_impl.py', [slim(c) for c in batch], timeout=1800)
@@ -907,3 +1169,7 @@ def run(ctx):
                       '(mask_corners False/True, polarised/folded, every method first in turn, repeated, alone on a fresh object) left data, mask, total '
                       'and the chunk-sum identity intact' % '; '.join(broken_src[1])[:300],
                       data={'obligation': broken_src[0], 'why': broken_src[1]}, no_input=True, broken=broken_src[0])
+    if broken_dd and not ntypes and not any(str(v['key'] or '').startswith(('from_data_dict:', 'types:')) and not v['no_input'] for v in ctx.violations):
+        ctx.violation('Misc.count_data_dict / Spectrum.from_data_dict are no longer the reviewed text (%s); every spelling of the in-memory data dictionary (regular '
+                      'stream and targeted search: allele codings x every other factor) still gave the canonical count dictionary and spectra' % '; '.join(broken_dd[1])[:300],
+                      data={'obligation': broken_dd[0], 'why': broken_dd[1]}, no_input=True, broken=broken_dd[0])
